@@ -18,7 +18,8 @@ RULE = ('cases = (kind in cpa|cpa_alt|dpa, precision, regime, n in 2..200, sampl
 LEVEL_TEXT = ('Every (word, sample) cell is compared with the definition computed in exact integers (two-pass float64 for real-valued data) with a first-order tolerance of the final formula; '
               'undefined cells must be NaN exactly (never inf / finite) in the exact regime; the result layout must be data.shape[1:] + (samples,). Exploration: inputs sampled, degenerate shapes forced by the column menu.')
 LEVEL_NOTE = 'trusted: vlib/oracles/stats.py (self-tested against scipy at start)'
-ASSUMPTIONS = ['NaN-for-undefined is asserted only where zero variance is exactly zero (integer-valued inputs within the exactly-representable range), as the property states',
+ASSUMPTIONS = ['the final result is also requested after earlier compute() calls (between batches and twice in a row): the statistic must still be the definition on all processed traces',
+               'NaN-for-undefined is asserted only where zero variance is exactly zero (integer-valued inputs within the exactly-representable range), as the property states',
                'rounded regime: tolerance = first-order formula bound x number of traces; cells whose bound exceeds 1e-2 are skipped and counted']
 
 
@@ -38,13 +39,21 @@ def check_stat(ctx, case):
     n, s = traces.shape
     cuts = [0] + list(case['cuts']) + [n]
     obj = _make(kind, precision)
-    for a, b in zip(cuts, cuts[1:]):
-        if b > a:
-            must(case, '%s.update' % kind, obj.update, traces[a:b], data[a:b])
     import warnings
+    mid = list(case.get('mid_computes') or [])
     with warnings.catch_warnings():
         warnings.simplefilter('ignore')
+        for bi, (a, b) in enumerate(zip(cuts, cuts[1:])):
+            if b > a:
+                must(case, '%s.update' % kind, obj.update, traces[a:b], data[a:b])
+                if bi < len(mid) and mid[bi]:
+                    must(case, '%s.compute between batches' % kind, obj.compute)   # must not disturb what follows
         res = must(case, '%s.compute' % kind, obj.compute)
+        if case.get('compute_twice'):
+            res2 = must(case, '%s.compute (second call)' % kind, obj.compute)
+            if not dist.same(res, res2):
+                raise Violation('%s: two consecutive compute() calls without new data differ' % kind, case)
+            res = res2
     wshape = data.shape[1:] if data.ndim > 1 else (1,)
     if not isinstance(res, np.ndarray) or res.shape != tuple(wshape) + (s,):
         raise Violation('%s: result shape %s, expected data.shape[1:] + (samples,) = %s' % (kind, np.shape(res), tuple(wshape) + (s,)), case)
@@ -75,7 +84,7 @@ def check_stat(ctx, case):
                 raise Violation('%s: |r| = %r > 1' % (kind, g), case)
     nontrivial = (n_undef > 0 and n_def > 0) or data.ndim >= 3
     ctx.case(case, nontrivial, ['kind:' + kind, 'prec:' + precision, 'regime:' + regime, 'word_ndim:%d' % (data.ndim - 1),
-                                'has_undefined' if n_undef else 'all_defined', 'batches:%d' % (len(cuts) - 1), 'tdtype:' + str(traces.dtype)])
+                                'has_undefined' if n_undef else 'all_defined', 'batches:%d' % (len(cuts) - 1), 'tdtype:' + str(traces.dtype)] + (['compute_before_final'] if any(mid) or case.get('compute_twice') else []))
 
 
 def replay(ctx, case):
@@ -163,7 +172,9 @@ def stat_cases(draw, kind):
     data = data.reshape((n,) + tuple(wshape)) if wshape else (data.reshape(n) if draw(st.booleans()) else data.reshape(n, 1))
     ncuts = draw(st.integers(0, 2))
     cuts = sorted(draw(st.lists(st.integers(1, n - 1), min_size=ncuts, max_size=ncuts))) if n > 1 else []
-    return {'kind': 'stat', 'dist': kind, 'precision': precision, 'regime': regime, 'traces': traces, 'data': data, 'cuts': cuts}
+    mid = [draw(st.booleans()) for _ in range(len(cuts) + 1)]
+    return {'kind': 'stat', 'dist': kind, 'precision': precision, 'regime': regime, 'traces': traces, 'data': data, 'cuts': cuts,
+            'mid_computes': mid, 'compute_twice': draw(st.booleans())}
 
 
 def unit_generated(ctx, kind, n):
